@@ -21,5 +21,60 @@ def _nontrivial(c):
     return s["old"] >= 1 or s["yields"] > s["tasks"]
 
 
+def _chains(tier):
+    depths = [50, 1500, 5000] if tier == "quick" else [50, 1500, 5000, 20000, 60000]
+    out = []
+    for d in depths:
+        for mode in ("const", "item", "fail"):
+            c = {"roots": [], "params": {}, "chain": {"depth": d, "mode": mode}}
+            c["py"] = ""
+            c["nroots"] = 0
+            c["tree"] = {"chain": c["chain"]}
+            c["meta"] = {"chain": True}
+            out.append(c)
+    return out
+
+
+def _extra(c, io, build):
+    if not c.get("chain"):
+        return []
+    if io.get("chain_result") != io.get("chain_want"):
+        return [dict(clause="C03:termination", site="deep-chain:%s" % c["chain"]["mode"],
+                     msg="a chain of %d awaiting tasks (%s at the bottom) gave %s instead of %s (recursion limit %s)" % (
+                         c["chain"]["depth"], c["chain"]["mode"], io.get("chain_result"), io.get("chain_want"), io.get("recursion_limit")))]
+    return []
+
+
 mach.install(globals(), "C03", ("EvStep", "EvDone"), ("C03:",), PROFILES, n_quick=300, n_thorough=5000,
-             nontrivial=_nontrivial, hang_clause="C03:termination")
+             nontrivial=_nontrivial, hang_clause="C03:termination", level="proof", extra_monitors=_extra)
+
+_gen0 = gen_cases
+_cmp0 = compare
+_mon0 = monitors
+
+
+def gen_cases(rng, tier):
+    return _chains(tier) + _gen0(rng, tier)
+
+
+def compare(c, m, io):
+    return None if c.get("chain") else _cmp0(c, m, io)
+
+
+def monitors(c, io, build):
+    if c.get("chain"):
+        if "Hang" in io:
+            return [dict(clause="C03:termination", site="deep-chain:hang", msg="deep chain did not terminate")]
+        return _extra(c, io, build)
+    return _mon0(c, io, build)
+
+
+def model_input_for(c, io, build):
+    if c.get("chain"):
+        return "(mkP [] (1) false []) 0%nat []"
+    return mach.model_input_for(c, io, build)
+
+
+def nontrivial(c):
+    return bool(c.get("chain")) or _nontrivial(c)
+
